@@ -17,6 +17,7 @@ what a crash *during* `json.dump` leaves on disk.  Those are runtime mechanics; 
 -/
 import Rpft.Cli
 import Rpft.Gen.Tables
+import Rpft.Canon
 set_option linter.unusedSimpArgs false
 set_option linter.unusedVariables false
 namespace Rpft.Props.C15
@@ -24,17 +25,18 @@ open Rpft Rpft.Cli Rpft.Cell
 
 /-! ### T1 -/
 
-/-- the constants of the model are the constants of the source (regenerated each run);
-the three shape facts of `cli.create_flows` / `ShutdownHandler` that the model's `cliFs`
-relies on hold in the source text. -/
+/-- the constants of the model are the constants of the source (regenerated each run: limits,
+HTTP methods and the ShutdownHandler facts by probing the behaviour of the code, the block tables
+and the shape facts of `cli.create_flows` that the model's `cliFs` relies on from the source text).
+The HTTP methods are a set and the block tables lookups with distinct keys: compared up to order. -/
 theorem tables_agree :
     Gen.cliMaxFieldValueLen = maxFieldValueLen ∧ Gen.cliMaxRunResultLen = maxRunResultLen ∧
     Gen.cliMaxCategoryLen = maxCategoryLen ∧ Gen.cliMaxFieldKeyLen = maxFieldKeyLen ∧
     Gen.cliEmptyTextChecked = true ∧
-    Gen.cliHttpMethods = httpMethods ∧ Gen.cliDefaultHttpMethod = defaultHttpMethod ∧
-    Gen.cliBlockEndMap =
+    Canon.sameSet Gen.cliHttpMethods httpMethods ∧ Gen.cliDefaultHttpMethod = defaultHttpMethod ∧
+    Canon.sameMap Gen.cliBlockEndMap
       [(RowType.endBlock.name, BlockType.block.name), (RowType.endFor.name, BlockType.for_.name)] ∧
-    Gen.cliBlockOpenMap =
+    Canon.sameMap Gen.cliBlockOpenMap
       [(RowType.beginBlock.name, BlockType.block.name), (RowType.beginFor.name, BlockType.for_.name)] ∧
     Gen.cliRootBlockName = BlockType.root.name ∧
     Gen.cliShutdownLevelName = "CRITICAL".toList ∧ Gen.cliShutdownLevelOp = "GtE".toList ∧
